@@ -160,16 +160,8 @@ func propC13(c *Ctx, r *Report) {
 	r.Scen += nsc
 
 	// height plumbing: the height checked is the executing block's height (both executors)
-	r.rule("C13/height-plumbing", 2, "admission is decided with the executing block's height")
+	ruleHeightPlumbing(c, r, "C13/height-plumbing")
 	hold := c.fn("node.Pegnetd.ApplyTransactionBatchesInHolding")
-	for _, ci := range findCalls(hold, "node.Pegnetd.applyTransactionBatch") {
-		a := ci.Common().Args
-		r.check(c.isExecHeight(a[5]), "C13/height-plumbing", "holding executor passes the executing height", c.ipos(ci), "", "applyTransactionBatch is given "+c.describeOrigin(a[5])+" instead of the executing height")
-	}
-	for _, ci := range findCalls(c.fn("node.Pegnetd.SyncBlock"), "node.Pegnetd.ApplyTransactionBatchesInHolding") {
-		a := ci.Common().Args
-		r.check(c.isExecHeight(a[3]), "C13/height-plumbing", "SyncBlock passes its height to the holding executor", c.ipos(ci), "", "holding executor is given "+c.describeOrigin(a[3]))
-	}
 
 	// PEG destination invalid from 2.0 (holding path)
 	// averages handed to Convert are not themselves gated by an era (shared with C07)
@@ -326,4 +318,19 @@ func rejectCodes(c *Ctx, r *Report, rule string) map[string]int64 {
 		r.check(okk, rule, "IsRejectedTx("+v.name+")", c.pos(irt.Pos()), "returns ("+v.c0+", "+v.e+")", "returns "+got)
 	}
 	return codes
+}
+
+// ruleHeightPlumbing: the executors are given the executing block's height (shared with C06: the deferral of a PEG
+// output and its settlement are decided from the same height).
+func ruleHeightPlumbing(c *Ctx, r *Report, rule string) {
+	r.rule(rule, 2, "admission is decided with the executing block's height")
+	hold := c.fn("node.Pegnetd.ApplyTransactionBatchesInHolding")
+	for _, ci := range c.findCallsFam(hold, "node.Pegnetd.applyTransactionBatch") {
+		a := ci.Common().Args
+		r.check(c.isExecHeight(a[5]), rule, "holding executor passes the executing height", c.ipos(ci), "", "applyTransactionBatch is given "+c.describeOrigin(a[5])+" instead of the executing height")
+	}
+	for _, ci := range c.findCallsFam(c.fn("node.Pegnetd.SyncBlock"), "node.Pegnetd.ApplyTransactionBatchesInHolding") {
+		a := ci.Common().Args
+		r.check(c.isExecHeight(a[3]), rule, "SyncBlock passes its height to the holding executor", c.ipos(ci), "", "holding executor is given "+c.describeOrigin(a[3]))
+	}
 }
